@@ -145,12 +145,17 @@ package gabi
 //@   loop 1 modifies elems(structures[index])
 //@   mustfail canary: err != nil
 
+//@ # a carried range proof that went through VerifyProofStructure against its reconstructed structure
+//@ # visited marker: the loop that verifies a carried range proof first binds it to the hidden response of its attribute
+//@ pred rpchecked(s, rp, pk) := rp != nil && rp.MResponse != nil
+
 //@ func (*ProofD).ChallengeContribution
 //@   property C01 C02 C11 C12 C08
 //@   requires p != nil && wfpk(pk) && nonnegD(p) && rangecache(p, pk)
 //@   ensures cacheinv: rangecache(p, pk)
 //@   ensures struct: err == nil ==> structD(p, pk) && len(result0) >= 2 && result0[0] == p.A && forall i in 0..len(result0) :: result0[i] != nil
 //@   ensures hidden: err == nil ==> forall idx in dom(p.RangeProofs) :: in(p.AResponses, idx)
+//@   ensures[C12,C13] allchecked: err == nil && p.RangeProofs != nil ==> p.cachedRangeStructures != nil && forall idx in dom(p.RangeProofs) :: forall i in 0..len(p.RangeProofs[idx]) :: rpchecked(p.cachedRangeStructures[idx][i], p.RangeProofs[idx][i], pk)
 //@   ensures nonrev: err == nil && p.NonRevocationProof != nil ==> nrstruct(p.NonRevocationProof) && p.NonRevocationProof.Challenge == p.C && p.NonRevocationProof.SignedAccumulator != nil && p.NonRevocationProof.SignedAccumulator.Accumulator != nil && p.NonRevocationProof.Nu == p.NonRevocationProof.SignedAccumulator.Accumulator.Nu
 //@   ensures alpha: err == nil && p.NonRevocationProof != nil ==> exists k in dom(p.AResponses) :: p.NonRevocationProof.Responses["alpha"] == p.AResponses[k] && val(p.AResponses[k]) < pow2(revocation.Parameters.AttributeSize + revocation.Parameters.ChallengeLength + revocation.Parameters.ZkStat + 1)
 //@   ensures fail: err != nil ==> result0 == nil
@@ -165,6 +170,9 @@ package gabi
 //@   loop 2 invariant rangecache(p, pk)
 //@   loop 3 invariant rangecache(p, pk)
 //@   loop 4 invariant rangecache(p, pk)
+//@   loop 3 invariant (forall k in dom(p.AResponses) :: k <= maxAttribute) && forall idx in dom(p.cachedRangeStructures) :: idx < index ==> forall i in 0..len(p.cachedRangeStructures[idx]) :: rpchecked(p.cachedRangeStructures[idx][i], p.RangeProofs[idx][i], pk)
+//@   loop 4 invariant (forall k in dom(p.AResponses) :: k <= maxAttribute) && forall idx in dom(p.cachedRangeStructures) :: idx < index ==> forall i in 0..len(p.cachedRangeStructures[idx]) :: rpchecked(p.cachedRangeStructures[idx][i], p.RangeProofs[idx][i], pk)
+//@   loop 4 invariant in(p.cachedRangeStructures, index) && structures == p.cachedRangeStructures[index] && index >= 0 && index <= maxAttribute && forall j in 0..$i :: rpchecked(structures[j], p.RangeProofs[index][j], pk)
 //@   loop 3 invariant fresh(l) && index >= 0 && index <= maxAttribute + 1 && maxAttribute < len(pk.R) && len(l) >= 2 && l[0] == p.A && forall j in 0..len(l) :: l[j] != nil
 //@   loop 3 modifies elems(l), onlyfresh("BV")
 //@   loop 4 invariant fresh(l) && 0 <= $i && $i <= len(structures) && len(l) >= 2 && l[0] == p.A && forall j in 0..len(l) :: l[j] != nil
